@@ -194,8 +194,8 @@ PROPS["C18"] = {
 
 PROPS["C07"] = {
     "jobs": [
-        {"name": "json", "pkg": "./c07", "run": "^(TestRapidChains|TestEachFamily)$", "rapid": T(3000, 150000), "shards": T(1, 8), "replay": "^TestReplay$"},
-        {"name": "cbor", "pkg": "./c07", "tags": "binary_log verif", "run": "^(TestRapidChains|TestEachFamily)$", "rapid": T(3000, 150000), "shards": T(1, 8), "replay": "^TestReplay$"},
+        {"name": "json", "pkg": "./c07", "run": "^(TestRapidChains|TestEachFamily|TestSizeSweep)$", "rapid": T(3000, 150000), "shards": T(1, 8), "replay": "^TestReplay$"},
+        {"name": "cbor", "pkg": "./c07", "tags": "binary_log verif", "run": "^(TestRapidChains|TestEachFamily|TestSizeSweep)$", "rapid": T(3000, 150000), "shards": T(1, 8), "replay": "^TestReplay$"},
     ],
     "assumptions": ["testing.AllocsPerRun(100, chain) integer-averages: a path allocating less than once per 100 events is not seen",
                     "all arguments (slices, errors, boxed values, closures, marshalers) exist before the measured function; the race detector is off"],
@@ -241,7 +241,7 @@ PROPS["C11"] = {"jobs": _sched_jobs(8000, 120000), "assumptions": SCHED_ASSUME +
               "note": "The Fatal path (Logger.Fatal -> Close) is covered by C04's re-executed children only for the exit status; the drain itself is this check."}}
 PROPS["C12"] = {"jobs": _sched_jobs(8000, 120000), "assumptions": SCHED_ASSUME + ["liveness is decided as bounded liveness: deadlock states and the step bound under a fair non-preemptive tail"],
     "claim": {"ref": "DESIGN.md §3.6, §5 C12", "technique": _SCHED_TECH,
-              "text": "Same schedule search in waiter and poller mode; the lowest-priority main thread observes the quiescent state after all Writes returned: delivered + reported >= written must hold there (no later Write or Close needed), and after Close every thread must terminate. On the current tree the waiter-mode lost wake-up (KF-C12-1) is a recorded known finding, identified by its history signature; every other violation is reported.",
+              "text": "Same schedule search in waiter and poller mode; the lowest-priority main thread observes the quiescent state after all Writes returned: delivered + reported >= written must hold there, each undelivered message being covered by reports made after its Write began (no later Write or Close needed), and after Close every thread must terminate. On the current tree the waiter-mode lost wake-up (KF-C12-1) is a recorded known finding, identified by its history signature; every other violation is reported.",
               "note": "Known finding KF-C12-1 is excluded by signature and counted (excluded_known in the evidence); its committed replay is re-run on every invocation."}}
 
 PROPS["C06"] = {
